@@ -364,6 +364,17 @@ func (g *ProgGen) stmt(depth int) []gast.Stmt {
 		if fe.Idx != "" {
 			body = []gast.Stmt{g.traceStmt(gast.Ident{Name: fe.Idx}, gast.Ident{Name: fe.Var})}
 		}
+		if g.Mutators && r.Intn(3) == 0 {
+			// ++ / -- / op= on the loop variable itself: the element handed out by the
+			// iterator (a member of a literal, of a variable's array, a hash value) must
+			// not be the thing that changes
+			if r.Intn(2) == 0 {
+				body = append(body, gast.IncDec{Name: fe.Var, Op: g.E.pick([]string{"++", "--"})})
+			} else {
+				body = append(body, gast.OpAssign{Name: fe.Var, Op: g.E.pick([]string{"+", "-", "*"}), X: gast.IntLit{V: int64(1 + r.Intn(3))}})
+			}
+			body = append(body, g.traceStmt(gast.Ident{Name: fe.Var}))
+		}
 		body = append(body, g.block(depth-1, r.Intn(3))...)
 		if r.Intn(2) == 0 {
 			// read the loop variables again after whatever the body did (an inner
